@@ -940,7 +940,10 @@ impl StrengthReducedU64 {
 /// external model checker can drive them directly.
 #[cfg(datafusion_verif)]
 pub mod verif_hooks {
-    pub use super::distributor_channels as channels;
+    pub use super::distributor_channels::{
+        DistributionReceiver, DistributionSender, RecvFuture, SendError, SendFuture,
+        channels, partition_aware_channels,
+    };
 
     /// `partition_indices` of the private `StrengthReducedU64` for `divisor`.
     pub fn strength_reduced_partition_indices(
